@@ -45,7 +45,7 @@ func (c31Depack) Unmarshal(p []byte) ([]byte, error) {
 
 	return p[1:], nil
 }
-func (c31Depack) IsPartitionHead(p []byte) bool       { return len(p) > 0 && p[0] == 1 }
+func (c31Depack) IsPartitionHead(p []byte) bool         { return len(p) > 0 && p[0] == 1 }
 func (c31Depack) IsPartitionTail(m bool, _ []byte) bool { return m }
 
 const (
@@ -55,16 +55,16 @@ const (
 
 // c31Case is one fully determined execution (also the replay format).
 type c31Case struct {
-	Sizes    []int  `json:"sizes"`     // packets per frame
-	SeqStart uint16 `json:"seq_start"` // sequence number of stream position 0
-	TsStart  uint32 `json:"ts_start"`  // timestamp of frame 0
-	MaxLate  uint16 `json:"max_late"`
-	DelayMs  int    `json:"max_time_delay_ms"` // 0 = option not used
-	Pop      int    `json:"pop_policy"`        // 0 one Pop after each Push, 1 Pop until nil after each Push, 2 Pop only after Flush
-	Marker   bool   `json:"marker_on_tail"`
-	AllHeads bool   `json:"every_packet_is_partition_head"` // false: only a frame's first packet is a head (VP8-like); true: every packet is (H264 single NALUs, Opus)
-	Delivery []int  `json:"delivery"` // stream positions in push order
-	Kind     string `json:"kind"`     // reorder | loss | dup
+	Sizes    []int    `json:"sizes"`     // packets per frame
+	SeqStart uint16   `json:"seq_start"` // sequence number of stream position 0
+	TsStart  uint32   `json:"ts_start"`  // timestamp of frame 0
+	MaxLate  uint16   `json:"max_late"`
+	DelayMs  int      `json:"max_time_delay_ms"` // 0 = option not used
+	Pop      int      `json:"pop_policy"`        // 0 one Pop after each Push, 1 Pop until nil after each Push, 2 Pop only after Flush
+	Marker   bool     `json:"marker_on_tail"`
+	AllHeads bool     `json:"every_packet_is_partition_head"` // false: only a frame's first packet is a head (VP8-like); true: every packet is (H264 single NALUs, Opus)
+	Delivery []int    `json:"delivery"`                       // stream positions in push order
+	Kind     string   `json:"kind"`                           // reorder | loss | dup
 	Trace    []string `json:"trace,omitempty"`
 }
 
@@ -139,14 +139,14 @@ type c31Worker struct {
 	looseLost, dupLost int64
 	startLost          int64
 	pushed, used, emit []bool
-	npush, usedAt      []int // pushes of a position so far / at the time a sample used it
+	npush              []int // pushes of a position so far
 }
 
 func c31NewWorker(tb testing.TB) *c31Worker {
 	return &c31Worker{
 		states: map[uint64]struct{}{}, classes: map[int]struct{}{}, outcomes: map[int]struct{}{}, tb: tb,
 		pushed: make([]bool, 64), used: make([]bool, 64), emit: make([]bool, 64),
-		npush: make([]int, 64), usedAt: make([]int, 64),
+		npush: make([]int, 64),
 	}
 }
 
@@ -256,7 +256,6 @@ func (w *c31Worker) state(sb *SampleBuilder, cs *c31Case) {
 	w.trans++
 }
 
-
 // c31Run executes one case against the real builder and applies the oracle.
 func c31Run(c *vkit.Check, w *c31Worker, cs *c31Case, trace bool) {
 	st := c31NewStream(cs.Sizes)
@@ -274,7 +273,7 @@ func c31Run(c *vkit.Check, w *c31Worker, cs *c31Case, trace bool) {
 	)
 	for i := range pushed {
 		pushed[i], used[i] = false, false
-		w.npush[i], w.usedAt[i] = 0, 0
+		w.npush[i] = 0
 	}
 	for i := range emitted {
 		emitted[i] = false
@@ -333,10 +332,10 @@ func c31Run(c *vkit.Check, w *c31Worker, cs *c31Case, trace bool) {
 		}
 		for _, p := range ids {
 			if used[p] {
-				// cause=repushed: the packet was pushed again (duplicate) after a sample had used it;
-				// cause=leftover: it was pushed once and still used twice
+				// cause=repushed: the packet had been pushed twice (duplicate); cause=leftover: it was
+				// pushed once and still used twice
 				cause := "leftover"
-				if w.npush[p] > w.usedAt[p] {
+				if w.npush[p] > 1 {
 					cause = "repushed"
 				}
 				fail("packet-reused|cause="+cause, fmt.Sprintf("packet %d contributes to two samples (second: %v)", p, ids))
@@ -346,7 +345,6 @@ func c31Run(c *vkit.Check, w *c31Worker, cs *c31Case, trace bool) {
 		}
 		for _, p := range ids {
 			used[p] = true
-			w.usedAt[p] = w.npush[p]
 		}
 		if ids[0] <= lastFirst {
 			fail("out-of-order", fmt.Sprintf("sample %v emitted after a sample starting at packet %d", ids, lastFirst))
@@ -389,7 +387,7 @@ func c31Run(c *vkit.Check, w *c31Worker, cs *c31Case, trace bool) {
 			pkt := &rtp.Packet{
 				Header: rtp.Header{
 					Version:        2,
-					SequenceNumber: cs.SeqStart + uint16(p), //nolint:gosec
+					SequenceNumber: cs.SeqStart + uint16(p),          //nolint:gosec
 					Timestamp:      cs.TsStart + uint32(f)*c31TsStep, //nolint:gosec
 					Marker:         cs.Marker && p == st.frameEnd[f]-1,
 				},
@@ -611,11 +609,11 @@ func TestVerifC31(t *testing.T) {
 	if c.Quick() {
 		fams = []c31Family{
 			{name: "3 frames x 1-2 packets, all orders, reorder+loss", shapes: c31Shapes(3, 2), disp: 5, reorder: true, loss: true,
-				configs: c31Configs(starts2, ml(2, 5), []int{0, 15}, []int{0, 2}, yes, both)},
-			{name: "3 frames x 1-2 packets, all orders, dup", shapes: c31Shapes(3, 2), disp: 5, dup: true,
-				configs: c31Configs(startsWrap, ml(2, 5), []int{0}, []int{0, 2}, yes, both)},
+				configs: c31Configs(startsWrap, ml(2, 5), []int{0, 15}, []int{0, 2}, yes, both)},
+			{name: "3 frames x 1-2 packets, displacement<=2, dup", shapes: c31Shapes(3, 2), disp: 2, dup: true,
+				configs: c31Configs(startsWrap, ml(1, 2, 5), []int{0}, pops, yes, both)},
 			{name: "2 frames x 1-3 packets, all orders, reorder+loss", shapes: c31Shapes(2, 3), disp: 5, reorder: true, loss: true,
-				configs: c31Configs(starts2, ml(2, 5), []int{0}, []int{0, 2}, yes, both)},
+				configs: c31Configs(starts2, ml(2, 5), []int{0}, []int{0, 2}, both, both)},
 		}
 	} else {
 		fams = []c31Family{
